@@ -15,6 +15,10 @@ CRATE_ALIASES = {"essential_types": "types", "essential_asm": "asm", "essential_
                  "essential_lock": "lock", "essential_asm_spec": "asm_spec"}
 
 
+STD_TYPES = {"Vec", "Option", "Result", "HashMap", "HashSet", "BTreeMap", "BTreeSet", "Arc", "Box", "Rc", "String", "str",
+             "slice", "Range", "Mutex", "OnceLock", "VecDeque", "Entry", "Iter", "IterMut", "IntoIter", "PhantomData",
+             "RangeInclusive", "Cow", "Cell", "RefCell", "MutexGuard"}
+
 # =============================================================================== program
 class Program:
     """All loaded crates: MIR functions, enum definitions, root re-exports."""
@@ -98,33 +102,42 @@ class Program:
 
     def _find_fn(self, callee, crate):
         c = re.sub(r"<'\w+>|'\w+, |'\w+ ", "", callee)
-        m = re.fullmatch(r"<(.+) as (.+?)>::(\w+)(::<.*>)?", c)
-        if m and _balanced(m.group(1)) and _balanced(m.group(2)):
-            return self._find_trait_method(m.group(1), m.group(2), m.group(3), crate)
+        q = mir.split_qualified(c)
+        if q:
+            return self._find_trait_method(q[0], q[1], q[2], crate)
+        c = re.sub(r"<impl ([\w:]+)>::", r"\1::", c)      # `_::<impl Effects>::method` -> `_::Effects::method`
         plain = strip_generics(c)
         segs = plain.split("::")
         tcrate = crate
         if segs[0] in CRATE_ALIASES:
             tcrate, segs = CRATE_ALIASES[segs[0]], segs[1:]
-        elif segs[0] in ("std", "core", "alloc"):
+        elif segs[0] in ("std", "core", "alloc") or (len(segs) >= 2 and segs[-2] in STD_TYPES) or segs[0] in STD_TYPES:
             return None
+        name = "::".join(segs)
+        order = [tcrate] + [c for c in self.fns if c != tcrate]
+        for c2 in order:
+            f = self._find_in_crate(c2, segs, name, callee, exact_only=False)
+            if f is not None: return f
+        return None
+
+    def _find_in_crate(self, tcrate, segs, name, callee, exact_only):
         fns = self.fns.get(tcrate)
         if fns is None: return None
-        name = "::".join(segs)
         if name in fns: return fns[name]
         last = segs[-1]
         cands = [f for f in self.by_last[tcrate].get(last, []) if "{closure" not in f.name and not f.is_const]
-        if not cands:
-            # types re-exported through another crate (essential_vm::types::...)
-            for c2 in self.fns:
-                if c2 != tcrate:
-                    cs = [f for f in self.by_last[c2].get(last, []) if strip_generics(f.name).endswith(name)]
-                    if len(cs) == 1: return cs[0]
-            return None
+        if not cands: return None
         # free function printed with a longer/shorter path
-        exact = [f for f in cands if strip_generics(f.name) == name or strip_generics(f.name).endswith("::" + name)
-                 or name.endswith("::" + strip_generics(f.name))]
+        def _trimmed_match(fname):
+            # def printed with a trimmed path: callee `a::b::f`, def `f` or `b::f`; the callee segment right
+            # before the def's path must be a module (lower case), never a type (Vec::push vs fn push)
+            if not name.endswith("::" + fname): return False
+            pre = name[:-(len(fname) + 2)].split("::")[-1]
+            return bool(pre) and (pre[0].islower() or pre[0] == "_")
+        exact = [f for f in cands if "<impl at" not in f.name and (strip_generics(f.name) == name or strip_generics(f.name).endswith("::" + name)
+                 or _trimmed_match(strip_generics(f.name)))]
         if len(exact) == 1: return exact[0]
+        if len(segs) == 1 and len(cands) == 1: return cands[0]
         # inherent / trait method: Type::method  -> <impl at ..>::method with matching self type
         if len(segs) >= 2:
             tyname = segs[-2]
@@ -133,7 +146,6 @@ class Program:
                   [f for f in ms if _last_ty(f.ret) == tyname or "Self" in f.ret] or ms
             if len(ms2) == 1: return ms2[0]
             if len(ms2) > 1:
-                # same module as the type path, if given
                 if len(segs) >= 3:
                     mod = "::".join(segs[:-2])
                     ms3 = [f for f in ms2 if f.name.startswith(mod + "::")]
@@ -196,7 +208,8 @@ class Program:
                 for f in self.by_last.get(c2, {}).get(method, []):
                     if "<impl at" not in f.name or "{closure" in f.name: continue
                     if f.params and _self_is(f.params[0][1], tyname): continue
-                    if re.search(r"(^|[<( ])" + re.escape(full) + r"($|[>,) ])", f.ret):
+                    if re.search(r"(^|[<( ]|::)" + re.escape(tyname) + r"($|[<>,) ])", f.ret) and \
+                            (len(segs) == 1 or re.search(re.escape(full), f.ret) or not re.search(r"\w::" + re.escape(tyname), f.ret)):
                         out.append(f)
             if out: break
         if len(out) == 1: return out[0]
@@ -243,26 +256,36 @@ def _mentions(f, tyname):
 
 # =============================================================================== explorer
 class Explorer:
-    """Solver + process-forking path exploration."""
+    """Solver + path exploration.
+
+    A path is identified by its list of decisions (indices taken at fork points).  Each worker process
+    explores paths depth-first by RE-EXECUTING the harness from the start with a decision prefix (no
+    state copying, all solver work stays inside one long-lived z3 context per worker); `jobs` workers
+    share a queue of pending prefixes."""
 
     def __init__(self, out_dir, jobs=12, max_paths=200000, seed=0):
-        self.solver = z3.Solver()
-        self.solver.set("random_seed", seed)
         self.out_dir = out_dir
-        self.root_pid = os.getpid()
-        self.sem = multiprocessing.Semaphore(max(jobs - 1, 0))
+        self.jobs = max(1, jobs)
+        self.seed = seed
+        self.max_paths = max_paths
         self.npaths = multiprocessing.Value("l", 0)
         self.nforks = multiprocessing.Value("l", 0)
-        self.max_paths = max_paths
-        self.has_token = False
-        self.children = []
+        self.max_steps = 2_000_000
+        self._out = None
+        self._reset_path([])
+        self.solver = None
+
+    def _reset_path(self, prefix):
+        self.prefix = list(prefix)
+        self.pos = 0
+        self.local_new = []
         self.queries = 0
         self.solver_time = 0.0
-        self.trace = []            # human-readable decisions of this path
-        self.names = {}            # name -> z3 const (for models)
-        self._out = None
+        self.decided = {}
+        self.trace = []
+        self.choices = []
+        self.names = {}
         self.steps = 0
-        self.max_steps = 2_000_000
 
     # ---- symbolic inputs
     def sym_int(self, name, ty):
@@ -290,87 +313,93 @@ class Explorer:
         if r == z3.unknown: raise Unmodelled("solver returned unknown: " + self.solver.reason_unknown())
         return r
 
-    # ---- forking
+    # ---- decisions
+    def _decide(self, n_alts, feasible_fn, label):
+        """core of fork/choose/concretize: returns the index taken on this path"""
+        if self.pos < len(self.prefix):
+            i = self.prefix[self.pos]
+            self.pos += 1
+            return i, True
+        feas = feasible_fn()
+        if not feas: raise Infeasible()
+        for j in feas[1:]:
+            self.local_new.append(self.prefix + [j])
+        with self.nforks.get_lock():
+            self.nforks.value += len(feas) - 1
+        i = feas[0]
+        self.prefix.append(i)
+        self.pos += 1
+        return i, False
+
     def fork(self, alts, label=""):
-        """alts: list of Bool (py bool or z3), mutually exclusive and exhaustive.  Returns the index
-        this process continues with; other feasible alternatives continue in child processes."""
+        """alts: list of Bool (py bool or z3), mutually exclusive and exhaustive.  Returns the index this
+        path continues with; the other feasible alternatives become pending paths."""
         alts = [b_norm(a) for a in alts]
         for i, a in enumerate(alts):
             if a is True: return i
         live = [i for i, a in enumerate(alts) if a is not False]
-        feas = [i for i in live if self._check(alts[i]) == z3.sat]
-        if not feas: raise Infeasible()
-        chosen = feas[0]
-        for i in feas[1:]:
-            if self._spawn():
-                chosen = i
-                break
-        self.solver.add(alts[chosen])
-        if label: self.trace.append(f"{label}#{chosen}")
-        return chosen
-
-    def _spawn(self):
-        """fork a child; returns True in the child."""
-        with self.nforks.get_lock():
-            self.nforks.value += 1
-        sys.stdout.flush(); sys.stderr.flush()
-        if self._out: self._out.flush()
-        got = self.sem.acquire(False)
-        pid = os.fork()
-        if pid == 0:
-            self.has_token = got
-            self.children = []
-            self._out = None
-            self.queries = 0; self.solver_time = 0.0
-            return True
-        if got:
-            self.children.append(pid)
-        else:
-            os.waitpid(pid, 0)
-        return False
+        if len(live) == 1 and False:
+            return live[0]
+        i, replayed = self._decide(len(alts), lambda: [k for k in live if self._check(alts[k]) == z3.sat], label)
+        self.solver.add(alts[i])
+        if label: self.trace.append(f"{label}#{i}")
+        return i
 
     def branch(self, cond, label=""):
         if isinstance(cond, bool): return cond
         cond = b_norm(cond)
         if isinstance(cond, bool): return cond
-        return self.fork([cond, z3.Not(cond)], label) == 0
+        k = cond.get_id()
+        hit = self.decided.get(k)
+        if hit is not None and hit[1].eq(cond): return hit[0]
+        r = self.fork([cond, z3.Not(cond)], label) == 0
+        self.decided[k] = (r, cond)
+        return r
 
     def choose(self, n, label="choose"):
         """unconstrained n-way structural choice (no solver involved)"""
         if n <= 1: return 0
-        chosen = 0
-        for i in range(1, n):
-            if self._spawn():
-                chosen = i
-                break
-        self.trace.append(f"{label}={chosen}")
-        return chosen
+        i, _ = self._decide(n, lambda: list(range(n)), label)
+        self.trace.append(f"{label}={i}")
+        self.choices.append(f"{label}={i}")
+        return i
 
     def concretize(self, x, cap=64, label="conc"):
         """fork over all feasible concrete values of an Int; returns python int (unsigned repr)."""
         if x.concrete: return x.v
-        vals = []
-        self.solver.push()
-        try:
-            while True:
-                if self._check() != z3.sat: break
-                v = self.solver.model().eval(x.v, model_completion=True).as_long()
-                vals.append(v)
-                self.solver.add(x.v != v)
-                if len(vals) > cap:
-                    raise Unmodelled(f"concretize: more than {cap} feasible values for {x.v}")
-        finally:
-            self.solver.pop()
-        if not vals: raise Infeasible()
-        vals.sort()
-        i = 0
-        for k in range(1, len(vals)):
-            if self._spawn():
-                i = k
-                break
-        self.solver.add(x.v == vals[i])
-        self.trace.append(f"{label}={vals[i]}")
-        return vals[i]
+
+        def enum():
+            vals = []
+            self.solver.push()
+            try:
+                while True:
+                    if self._check() != z3.sat: break
+                    v = self.solver.model().eval(x.v, model_completion=True).as_long()
+                    vals.append(v)
+                    self.solver.add(x.v != v)
+                    if len(vals) > cap:
+                        raise Unmodelled(f"concretize: more than {cap} feasible values for {x.v}")
+            finally:
+                self.solver.pop()
+            self._vals = sorted(vals)
+            return list(range(len(vals)))
+        if self.pos < len(self.prefix):
+            # replay: the chosen value itself is recorded in the prefix
+            v = self.prefix[self.pos][1]; self.pos += 1
+        else:
+            idx = enum()
+            vals = self._vals
+            if not vals: raise Infeasible()
+            for w in vals[1:]:
+                self.local_new.append(self.prefix + [("v", w)])
+            with self.nforks.get_lock():
+                self.nforks.value += len(vals) - 1
+            v = vals[0]
+            self.prefix.append(("v", v))
+            self.pos += 1
+        self.solver.add(x.v == v)
+        self.trace.append(f"{label}={v}")
+        return v
 
     def is_sat(self, cond):
         cond = b_norm(cond)
@@ -395,41 +424,20 @@ class Explorer:
     def emit(self, rec):
         if self._out is None:
             self._out = open(os.path.join(self.out_dir, f"{os.getpid()}.jsonl"), "a")
-        rec["trace"] = self.trace[-40:]
+        rec["trace"] = self.choices[:60] + self.trace[-30:]
         self._out.write(json.dumps(rec, default=str) + "\n")
-        self._out.flush()
 
-    def finish_path(self, rec):
-        with self.npaths.get_lock():
-            self.npaths.value += 1
-            n = self.npaths.value
-        rec["queries"] = self.queries
-        rec["solver_s"] = round(self.solver_time, 4)
-        self.queries = 0; self.solver_time = 0.0
-        self.emit(rec)
-        if n > self.max_paths:
-            self.emit(dict(status="budget", info=f"more than {self.max_paths} paths"))
-
-    def end_process(self):
-        for pid in self.children:
-            try: os.waitpid(pid, 0)
-            except ChildProcessError: pass
-        self.children = []
-        if self._out: self._out.close(); self._out = None
-        if os.getpid() != self.root_pid:
-            if self.has_token: self.sem.release()
-            os._exit(0)
-
-    def explore(self, harness):
-        """Run `harness(self)` over all paths.  Returns list of result records (root only)."""
+    def _run_path(self, path_fn, prefix):
+        self._reset_path(prefix)
+        self.solver.push()
         try:
             try:
-                out = harness(self)
+                out = path_fn(self)
                 rec = dict(status="ok", info=out)
             except Panic as p:
                 rec = dict(status="panic", info=str(p), model=self.model_for())
             except Infeasible:
-                rec = None
+                rec = dict(status="infeasible")
             except Violation as v:
                 rec = dict(status="violation", info=v.what, model=v.model, extra=v.extra)
             except Unmodelled as u:
@@ -438,13 +446,66 @@ class Explorer:
                 rec = dict(status="unmodelled", info="python recursion limit")
             except Exception as e:   # interpreter bug = inconclusive, never silently dropped
                 rec = dict(status="unmodelled", info="internal: " + repr(e) + " " + traceback.format_exc()[-1500:])
-            if rec is not None:
-                self.finish_path(rec)
-            else:
-                self.emit(dict(status="infeasible", queries=self.queries, solver_s=round(self.solver_time, 4)))
         finally:
-            self.end_process()
-        # root: collect
+            self.solver.pop()
+        if self.pos < len(self.prefix) and rec["status"] not in ("unmodelled",):
+            rec = dict(status="unmodelled", info="replay divergence: path ended before its decision prefix was consumed")
+        rec["queries"] = self.queries
+        rec["solver_s"] = round(self.solver_time, 4)
+        if rec["status"] != "infeasible":
+            with self.npaths.get_lock():
+                self.npaths.value += 1
+                n = self.npaths.value
+            if n == self.max_paths + 1:
+                self.emit(dict(status="budget", info=f"more than {self.max_paths} paths"))
+        self.emit(rec)
+        return self.local_new
+
+    def _dfs(self, path_fn, roots, limit=None):
+        """depth-first exploration of the subtrees below `roots`; with `limit`, stops expanding once that many
+        prefixes are pending and returns them (used to seed the workers)."""
+        stack = list(roots)
+        while stack:
+            if limit is not None and len(stack) >= limit:
+                return stack
+            if self.npaths.value > self.max_paths:
+                return []
+            prefix = stack.pop(0) if limit is not None else stack.pop()
+            stack.extend(self._run_path(path_fn, prefix))
+        return []
+
+    def explore(self, path_fn):
+        """Run `path_fn(self)` over all paths.  Returns list of result records."""
+        self.solver = z3.Solver()
+        self.solver.set("random_seed", self.seed)
+        # phase 1 (this process): breadth-first until there is enough work to share
+        pending = self._dfs(path_fn, [[]], limit=(16 * self.jobs if self.jobs > 1 else None))
+        if self._out: self._out.flush()
+        if pending:
+            # phase 2: workers claim subtrees dynamically through a shared counter
+            nxt = multiprocessing.Value("l", 0)
+            pids = []
+            sys.stdout.flush(); sys.stderr.flush()
+            for w in range(self.jobs):
+                pid = os.fork()
+                if pid == 0:
+                    try:
+                        self._out = None
+                        self.solver = z3.Solver()
+                        self.solver.set("random_seed", self.seed)
+                        while True:
+                            with nxt.get_lock():
+                                i = nxt.value
+                                nxt.value += 1
+                            if i >= len(pending): break
+                            self._dfs(path_fn, [pending[i]])
+                        if self._out: self._out.close()
+                    finally:
+                        os._exit(0)
+                pids.append(pid)
+            for pid in pids:
+                os.waitpid(pid, 0)
+        if self._out: self._out.close(); self._out = None
         recs = []
         for fn in os.listdir(self.out_dir):
             if fn.endswith(".jsonl"):
